@@ -20,6 +20,9 @@ Families
     join      bounded delays; nodes that call start() before they know anybody and are introduced later with
               add_member(), or whose only known member is DEAD for some ticks before the introduction; then one
               member is stopped: same detection / false-death oracles as crash
+    phiwire   clusters of >= 3 (healthy or with one member stopped): the suspicion level the protocol itself
+              holds for every (observer, member) pair is sampled after every event handled by the observer;
+              a decrease with no ping/ack from that member in between refutes
     phi       PhiAccrualDetector alone: phi(t2) < phi(t1), t1 < t2, no heartbeat in between
 """
 
@@ -59,6 +62,9 @@ RULE = (
     "and are introduced symmetrically 1-7 intervals later, or know only a member that crashes and is declared DEAD "
     "before the introduction (probe rounds with nobody to probe are counted and required), then a stop as in crash; a "
     "harness ticker delivers one inert event per interval after every stop so that views are sampled even in a silent cluster. "
+    "phiwire: healthy or crash cases with N >= 3 in which, after every event handled by a node (and on every sample tick), "
+    "phi(now) of the detector that node keeps for each member is compared with the previous sample of the same pair unless "
+    "a ping/ack from that member was delivered in between; non-trivial when >= 1 compared pair spans a heartbeat from another member. "
     "churn: loss, delays up to several probe intervals, partitions that heal, pause windows. phi: detector alone, "
     "heartbeat histories (regular, bursty, single, zero-variance, exponential) with grids (fine, geometric to 1e12 s, "
     "consecutive floats) between consecutive heartbeats and after the last. State of every node for every peer "
@@ -76,9 +82,10 @@ ASSUMPTIONS = [
     "join family: late members are introduced symmetrically (both sides call add_member at the same instant); a node that pings a peer which does not know it yet cannot be acked and is outside the healthy-network claim",
     "the incarnation of a DEAD report is bounded below by the incarnations of the updates the observer visibly applied; a DEAD -> ALIVE transition is accepted when any incarnation for that member delivered to the observer since the DEAD report is higher than that lower bound",
     "PhiAccrualDetector is built with min_std > 0 (its documented purpose is to prevent a division by zero) and heartbeats are fed in non-decreasing time order",
+    "MembershipProtocol offers no public per-member suspicion accessor: phiwire reads node._members[name].detector (read-only; MemberInfo and PhiAccrualDetector.phi/last_heartbeat are public) unless the tree offers get_phi / suspicion_level / phi_of",
     "global `random` state is owned by the case (seeded with case['pyseed']); the library shuffles probe orders with it",
 ]
-MUST_OBSERVE = ["state_samples", "late_samples_after_bound", "phi_pairs_checked", "dead_reports_tracked", "idle_probe_ticks", "late_acks_seen"]
+MUST_OBSERVE = ["state_samples", "late_samples_after_bound", "phi_pairs_checked", "dead_reports_tracked", "idle_probe_ticks", "late_acks_seen", "wired_phi_pairs_spanning_other_members_heartbeats"]
 
 MSG_TYPES = ("MembershipPing", "MembershipAck", "MembershipIndirectAck")
 
@@ -296,6 +303,22 @@ def gen_tardy(rng: random.Random, tier: str) -> dict:
     return case
 
 
+def gen_phiwire(rng: random.Random, tier: str) -> dict:
+    """Clusters of >= 3 in which the suspicion levels held by the protocol itself are sampled."""
+    case = gen_crash(rng, tier) if rng.random() < 0.6 else gen_healthy(rng, tier)
+    if case["n"] < 3:
+        case["n"] = n = rng.choice([3, 4, 5, 6, 8])
+        pi = case["probe_interval"]
+        case["offsets"] = _offsets(rng, n, pi)
+        case["script"] = _bounded_script(rng, _names(n), pi)
+        if case["stop"] is not None:
+            case["stop"]["member"] = rng.randrange(n)
+    if case["stop"] is None:
+        case["rounds"] = rng.choice([30, 40, 60])
+    case["check_phi"] = True
+    return case
+
+
 def gen_join(rng: random.Random, tier: str) -> dict:
     """Memberships in which some node has nobody to probe at some tick, then a stop to be detected."""
     case = _params(rng)
@@ -432,6 +455,25 @@ def _build(case: dict):
     return net, nodes, peer, script
 
 
+def _suspicion_reader(node, member: str):
+    """Least intrusive way to read the suspicion level `node` holds for `member`.
+
+    A public accessor on the protocol is preferred if the tree offers one; this tree offers none, so the
+    fallback is a read-only look at the member table (`node._members[member]`, a public `MemberInfo` dataclass)
+    and the public API of the `PhiAccrualDetector` stored there (`phi(now_s)`, `last_heartbeat`).
+    Returns (phi_fn(now_s) -> float, marker_fn() -> anything that changes when a heartbeat is recorded).
+    """
+    for name in ("get_phi", "suspicion_level", "phi_of"):
+        fn = getattr(node, name, None)
+        if callable(fn):
+            return (lambda now_s, fn=fn: fn(member, now_s)), (lambda: None)
+    info = node._members.get(member)  # noqa: SLF001  no public per-member accessor exists
+    if info is None:
+        return None
+    det = info.detector
+    return det.phi, (lambda det=det: det.last_heartbeat)
+
+
 class _Monitor:
     """Samples every (observer, member) view after every delivered event."""
 
@@ -457,6 +499,12 @@ class _Monitor:
             self.excluded.add(case["decoy"]["member"])
         self.bound_frac = case.get("bound_frac", BOUND_FRAC)
         self.prev_probes = [nd.stats.probes_sent for nd in nodes]
+        self.check_phi = bool(case.get("check_phi"))
+        self.phi_prev: dict = {}  # (yi, xi) -> (phi, t_ns, heartbeat marker, wire heartbeats seen)
+        self.wire_hb = [[0] * m for _ in range(self.n)]  # pings / acks from member delivered to observer
+        self.foreign_since = [[0] * m for _ in range(self.n)]  # heartbeats from OTHER members since the last sample
+        self.phi_pairs = 0
+        self.phi_pairs_foreign = 0
         self.ping_sent_ns: dict = {}  # (observer, member) -> send time of the outstanding direct ping
         self.late_acks = 0  # acks delivered later than the 50 % ack deadline of their direct ping
         self.half_interval_ns = int(case["probe_interval"] * 0.5e9)
@@ -507,6 +555,12 @@ class _Monitor:
                 xi = self.member_names.index(sender)
                 if self.heard_ns[yi][xi] is None:
                     self.heard_ns[yi][xi] = t
+                if self.check_phi:
+                    self.wire_hb[yi][xi] += 1
+                    fs = self.foreign_since[yi]
+                    for k in range(len(fs)):
+                        if k != xi:
+                            fs[k] += 1
                 sd = self.since_dead[yi][xi]
                 if sd is not None and isinstance(sender_inc, int):
                     sd.append(sender_inc)
@@ -562,6 +616,14 @@ class _Monitor:
                 elif self.first_not_alive_ns[yi] is None:
                     self.first_not_alive_ns[yi] = t
         self.samples += self.n * (len(self.member_names) - 1)
+        if self.check_phi:
+            ti = self.idx_of_target.get(id(ev.target))
+            if ti is not None and not crashed_target:
+                self._sample_phi(ti, t, ev, wire)  # only the handler's own node can have changed its detectors
+            elif ev.event_type == "SampleTick":
+                for yi in range(self.n):
+                    if not getattr(self.nodes[yi], "_crashed", False):
+                        self._sample_phi(yi, t, ev, None)
         if late:
             self.late_samples += 1
             if t > self.settle_ns and self.control is not None:
@@ -570,6 +632,65 @@ class _Monitor:
                 if all(self.cur[yi][xs] is not A for yi in range(self.n) if yi not in self.excluded):
                     self.control.pause()  # every live view has left ALIVE and stayed so for 3 intervals past B
                     self.control = None
+
+    def _sample_phi(self, yi, t, ev, wire):
+        """phi(t2) < phi(t1), t1 <= t2, with no heartbeat from that member recorded in between, refutes."""
+        y = self.nodes[yi]
+        now_s = ev.time.to_seconds()
+        for xi, xname in enumerate(self.member_names):
+            if xi == yi:
+                continue
+            rd = _suspicion_reader(y, xname)
+            if rd is None:
+                continue
+            phi_fn, marker_fn = rd
+            p = phi_fn(now_s)
+            if p != p:
+                self.res.count("wired_phi_nan")
+                self.phi_prev.pop((yi, xi), None)
+                continue
+            cur = (p, t, marker_fn(), self.wire_hb[yi][xi])
+            prev = self.phi_prev.get((yi, xi))
+            foreign = self.foreign_since[yi][xi]
+            self.foreign_since[yi][xi] = 0
+            self.phi_prev[(yi, xi)] = cur
+            if prev is None or prev[2] != cur[2] or prev[3] != cur[3]:
+                continue  # a heartbeat of this member arrived (wire) or was recorded (detector): new episode
+            self.phi_pairs += 1
+            if foreign:
+                self.phi_pairs_foreign += 1
+            if p < prev[0]:
+                if wire is not None and wire[0] == yi and wire[1] in self.member_names and wire[1] != xname:
+                    shape = "on-a-heartbeat-from-another-member"
+                elif foreign:
+                    shape = "after-heartbeats-from-other-members"
+                else:
+                    shape = f"on-{ev.event_type}"
+                key = ("wired-phi", shape)
+                if key in self.flagged:
+                    continue
+                self.flagged.add(key)
+                self.res.add(
+                    "phi-decreases-without-heartbeat",
+                    "MembershipProtocol",
+                    shape,
+                    detail=(
+                        f"{self.names[yi]}: suspicion level for {xname} fell from {prev[0]!r} at t={prev[1] / 1e9:.6f}s to {p!r} at "
+                        f"t={t / 1e9:.6f}s; no ping/ack from {xname} was delivered to {self.names[yi]} in between and the detector's "
+                        f"last_heartbeat did not change ({cur[2]!r}); event just handled: {ev.event_type}"
+                        + (f" from {wire[1]}" if wire is not None and wire[0] == yi else "")
+                    ),
+                    witness={
+                        "observer": self.names[yi],
+                        "member": xname,
+                        "t1_s": prev[1] / 1e9,
+                        "phi1": repr(prev[0]),
+                        "t2_s": t / 1e9,
+                        "phi2": repr(p),
+                        "event_type": ev.event_type,
+                        "heartbeats_from_other_members_in_between": foreign,
+                    },
+                )
 
     def _transition(self, yi, xi, old, new, t, ev, wire):
         MS = self.MS
@@ -789,6 +910,9 @@ def _run_cluster(case: dict, *, check_false_death: bool, check_detection: bool) 
     res.count("acks_received", sum(nd.stats.acks_received for nd in nodes))
     res.count("indirect_probes_sent", sum(nd.stats.indirect_probes_sent for nd in nodes))
     res.seen("cluster_sizes", n)
+    if mon.check_phi:
+        res.count("wired_phi_pairs_checked", mon.phi_pairs)
+        res.count("wired_phi_pairs_spanning_other_members_heartbeats", mon.phi_pairs_foreign)
     if case.get("membership") is not None:
         res.count("idle_probe_ticks", sum(mon.idle_ticks))
         res.count("late_introductions", sum(len(jn["pairs"]) for jn in case["membership"]["joins"]))
@@ -904,6 +1028,12 @@ def run_crash(case: dict) -> Result:
 
 def run_tardy(case: dict) -> Result:
     return _run_cluster(case, check_false_death=True, check_detection=False)
+
+
+def run_phiwire(case: dict) -> Result:
+    res = _run_cluster(case, check_false_death=True, check_detection=case.get("stop") is not None)
+    res.nontrivial = res.obs.get("wired_phi_pairs_spanning_other_members_heartbeats", 0) > 0
+    return res
 
 
 def run_join(case: dict) -> Result:
@@ -1063,10 +1193,11 @@ FAMILIES = {
     "churn": Family("churn", gen_churn, run_churn, case_timeout=60.0),
     "tardy": Family("tardy", gen_tardy, run_tardy, case_timeout=60.0),
     "join": Family("join", gen_join, run_join, case_timeout=60.0),
+    "phiwire": Family("phiwire", gen_phiwire, run_phiwire, case_timeout=90.0),
     "phi": Family("phi", gen_phi, run_phi, case_timeout=30.0),
 }
 
 BUDGET = {
-    "quick": {"healthy": 500, "crash": 500, "gossip": 300, "churn": 200, "tardy": 300, "join": 300, "phi": 1500},
-    "thorough": {"healthy": 12000, "crash": 12000, "gossip": 6000, "churn": 4000, "tardy": 8000, "join": 8000, "phi": 40000},
+    "quick": {"healthy": 500, "crash": 500, "gossip": 300, "churn": 200, "tardy": 300, "join": 300, "phiwire": 200, "phi": 1500},
+    "thorough": {"healthy": 12000, "crash": 12000, "gossip": 6000, "churn": 4000, "tardy": 8000, "join": 8000, "phiwire": 5000, "phi": 40000},
 }
